@@ -161,6 +161,15 @@ def scenario(ctx):
 			queries.append(refs[rng.randrange(nref)].copy())
 		else:
 			queries.extend(W.make_collection(rng, 1, universe))
+	# a query stored in a wider integer type may hold k-mer indices the references' type cannot represent
+	rmax, qmax = np.iinfo(rdt).max, np.iinfo(qdt).max
+	if qmax > rmax and ch.flip(0.4, 'query_beyond_ref_range'):
+		for i in range(len(queries)):
+			if rng.random() < 0.6:
+				hi = min(qmax, rmax * 4 + 3)
+				extra = np.array(sorted({rng.randrange(rmax + 1, hi + 1) for _ in range(rng.randint(1, 6))}), dtype=np.uint64)
+				queries[i] = np.union1d(queries[i], extra).astype(np.uint64)
+		ctx.probe('query_values_beyond_reference_dtype_range')
 	refs_t = [a.astype(rdt) for a in refs]
 	queries_t = [a.astype(qdt) for a in queries]
 	# list-type containers may hold signatures of different integer widths (each wide enough for its own values)
